@@ -16,6 +16,10 @@ def jAKey (j : Json) : Except String AKey := do
 def jAskKey (j : Json) : Except String AskKey := do
   pure { key := ← (fld j "key") >>= jStr, prio := ← (fld j "prio") >>= jInt, ctime := ← (fld j "ctime") >>= jInt }
 
+def jNodeKey (j : Json) : Except String (NodeKey × Res) := do
+  pure ({ id := ← (fld j "id") >>= jStr, cap := ← (fld j "cap") >>= jRes, allocated := ← (fld j "allocated") >>= jRes,
+          occupied := ← (fld j "occupied") >>= jRes }, ← (fld j "avail") >>= jRes)
+
 /-- x before y in l -/
 def before (l : List String) (x y : String) : Bool :=
   match l.idxOf? x, l.idxOf? y with
@@ -45,9 +49,22 @@ def sortCheck {α} (what : String) (lt : α → α → Bool) (idOf : α → Stri
 
 /-! ### op `children`: the candidates a REAL parent queue offers (Queue.sortQueues + GetFairMaxResource) -/
 
+def jIntList (j : Json) : Except String (List Int) := do
+  let a ← jArr j
+  a.toList.mapM jInt
+
+def jPrioLeaf (j : Json) : Except String PrioLeaf := do
+  pure { fence := ← (fld j "fence") >>= jBool, offset := ← (fld j "offset") >>= jInt, apps := ← (fld j "apps") >>= jListOf jIntList }
+
+def jPrioQueue (j : Json) : Except String PrioQueue := do
+  pure { fence := ← (fld j "fence") >>= jBool, offset := ← (fld j "offset") >>= jInt, leaf := ← (fld j "leaf") >>= jBool,
+         apps := ← (fld j "apps") >>= jListOf jIntList, kids := ← (fld j "kids") >>= jListOf jPrioLeaf }
+
+/-- the priority key is computed by the model (policy, offset, ask priorities below); `GetCurrentPriority` is only compared -/
 def jChild (j : Json) : Except String Child := do
+  let pq ← (fld j "prioQueue") >>= jPrioQueue
   pure { name := ← (fld j "name") >>= jStr, max := ← (fld j "max") >>= jORes, guaranteed := ← (fld j "guaranteed") >>= jORes,
-         allocated := ← (fld j "allocated") >>= jORes, pending := ← (fld j "pending") >>= jORes, prio := ← (fld j "prio") >>= jInt,
+         allocated := ← (fld j "allocated") >>= jORes, pending := ← (fld j "pending") >>= jORes, prio := pq.value,
          stopped := (← (fld j "state") >>= jStr) == "Stopped" }
 
 def jNamedORes (j : Json) : Except String (String × ORes) := do
@@ -105,6 +122,7 @@ def childrenStep (j : Json) : Except String String := do
     let order ← (fld t "order") >>= jStrList
     let fms ← (fld t "fairMax") >>= jListOf jNamedORes
     let ranks ← (fld t "share") >>= jListOf jPairSN
+    let prios ← (fld t "prios") >>= jListOf (fun e => do let a ← jArr e; pure (← jStr a[0]!, ← jInt a[1]!))
     let runs ← (fld t "runs") >>= jListOf jChRun
     let present := order.filterMap (fun n => children.find? (·.name == n))
     if present.length != order.length then throw "unknown child in tree"
@@ -114,6 +132,8 @@ def childrenStep (j : Json) : Except String String := do
       match fms.lookup c.name with
       | some ifm => if !oresEq mfm ifm then diffs := diffs ++ [s!"diff children-fairmax tree={ti} {c.name} model={showORes mfm} impl={showORes ifm}"]
       | none => throw "fair max missing"
+      if prios.lookup c.name != some c.prio then
+        diffs := diffs ++ [s!"diff children-priority tree={ti} {c.name} model={c.prio} impl={prios.lookup c.name}"]
       let mrank := (present.filter (fun d => shareLt (share d) (share c))).length
       if ranks.lookup c.name != some mrank then
         diffs := diffs ++ [s!"diff children-share tree={ti} {c.name} model={mrank} impl={ranks.lookup c.name}"]
@@ -189,18 +209,46 @@ def sortStep (j : Json) : Except String String := do
     if sortStrs full != sortedReg then pure s!"inv C19.nodes-visit-once registered={sortedReg} full={full}"
     else if unres != full.filter (fun n => !reserved.contains n) then pure s!"inv C19.nodes-unreserved-view full={full} reserved={reserved} unreserved={unres}"
     else
-      -- reflects current utilisation: ascending fresh score, ties by node id — for every pair of nodes
+      -- reflects current utilisation: ascending score, ties by node id — for every pair of nodes. The score is computed
+      -- by the MODEL from capacity, allocated, occupied and the weights of the policy in force (exact fractions); the
+      -- implementation's fresh score enters only as a rank that is compared with the model's order.
       let tainted ← jStrList (fldD j "tainted" (.arr #[]))
-      let wrong (a b : String) := !(rank a < rank b || (rank a == rank b && a < b))
+      let keys ← (fld j "nodes") >>= jListOf jNodeKey
+      let weights ← (fld j "weights") >>= jRes
+      let bin := (← (fld j "policy") >>= jStr) == "binpacking"
+      let opn := (jStr (fldD j "op" (.str ""))).toOption.getD ""
+      if !keys.all (fun k => nodeModelled weights k.1) then pure "ok unmodelled-capacity"
+      else
+      let score (n : String) : Share := match keys.find? (fun k => k.1.id == n) with
+        | some k => nodeScore bin weights k.1
+        | none => ⟨0, 1⟩
+      -- the available resource: total - allocated - occupied; the implementation prunes it on most updates only (a release
+      -- can leave an explicit zero), a zero entry and a missing entry both read 0
+      match keys.find? (fun k => !resEq (nodeAvail k.1) (prune k.2)) with
+      | some k => pure s!"diff nodes-available {k.1.id} model={showRes (nodeAvail k.1)} impl={showRes k.2} after={opn}"
+      | none =>
+      -- the fresh score of the implementation orders the nodes as the model's score does (float ties of different fractions tolerated)
+      let ids := keys.map (·.1.id)
+      let badRank := ids.findSome? (fun a => ids.findSome? (fun b =>
+          if shareLt (score a) (score b) && !(rank a < rank b) then some s!"{a}<{b}" else none))
+      match badRank with
+      | some b => pure s!"diff nodes-score {b} policy={if bin then "binpacking" else "fair"} weights={showRes weights} ranks={ranks} after={opn}"
+      | none =>
+      -- a before b is wrong when b's score is smaller; on equal fractions the float rank decides, then the node id
+      let wrong (a b : String) :=
+        shareLt (score b) (score a) || (shareEq (score a) (score b) && (rank b < rank a || (rank a == rank b && b < a)))
       let pairs := (List.range full.length).flatMap (fun i => (List.range full.length).filterMap (fun k =>
           if i < k then (match full[i]?, full[k]? with | some a, some b => some (a, b) | _, _ => none) else none))
       let badClean := pairs.find? (fun p => wrong p.1 p.2 && !tainted.contains p.1 && !tainted.contains p.2)
       let badTainted := pairs.find? (fun p => wrong p.1 p.2)
-      let opn := (jStr (fldD j "op" (.str ""))).toOption.getD ""
       match badClean, badTainted with
       | some p, _ => pure s!"inv C19.nodes-stale-order {p.1}>{p.2} after={opn} full={full} ranks={ranks}"
       | none, some p => pure s!"inv C19.nodes-stale-after-unnotified-change {p.1}>{p.2} tainted={tainted} full={full} ranks={ranks}"
-      | none, none => pure "ok"
+      | none, none =>
+        -- the model's order function itself, when no fraction tie is broken by the floats
+        let m := (nodeOrder bin weights (keys.map (·.1))).map (·.id)
+        let floatTie := ids.any (fun a => ids.any (fun b => shareEq (score a) (score b) && rank a != rank b))
+        if !floatTie && m != full then pure s!"diff nodes-order model={m} impl={full}" else pure "ok"
   | _ => pure "bad-op"
 
 end YkDrv
